@@ -496,6 +496,8 @@ def oracle_samples(c, r):
         for route in ("csv", "agg", "resave", "scrape"):
             if route in r:
                 add(route, compare_view(orig, r[route], route))
+            elif route == "resave" and "load" in r.get("csv", {}):
+                pass                    # nothing was loaded that could be saved again (reported on the csv route)
             elif route != "scrape" or c.get("scrape", True):
                 fails.append((route, "missing", "%s: route produced nothing" % route))
     if "load" in r.get("summary_orig", {}):
@@ -548,10 +550,19 @@ def oracle_samples(c, r):
                     fails.append(("latent", exc_part(r, route), "%s raised %s" % (route, exc_of(r, route))))
                     continue
                 plain = latent_plain(got["ok"])
+                # scalar values live in a REAL column: SQLite stores -0.0 as the integer 0, the sign of a zero is not kept
+                # (the value is equal); everything else is compared bit for bit
+                unsigned = lambda xs: [{**x, "kw": {k: ("0x0.0p+0" if v == "-0x0.0p+0" else v) for k, v in x["kw"].items()},
+                                        **{f: ("0x0.0p+0" if x[f] == "-0x0.0p+0" else x[f]) for f in ("ll", "lp", "w")}} for x in xs]
+                plain, exp_u = unsigned(plain), unsigned(exp)
                 # always minimised: a sub-multiset of the latent samples that contains the best one
-                if not plain or any(x not in exp for x in plain) or exp[kbest] not in plain or len(plain) > 2:
+                # (minimised twice on this route; with tied likelihoods either tied sample may be the one kept)
+                maxll = unhex(rows[kbest]["ll"])
+                if not plain or any(x not in exp_u for x in plain) or not any(unhex(x["ll"]) == maxll for x in plain) \
+                        or len(plain) > 2:
                     fails.append(("latent", "values", "%s holds %s, latent samples are %s" % (route, plain, exp[:3])))
-                elif ref and sorted(map(json.dumps, plain)) != sorted(map(json.dumps, latent_plain(r[ref]))):
+                elif ref and [unhex(x["ll"]) for x in rows].count(maxll) == 1 and \
+                        sorted(map(json.dumps, plain)) != sorted(map(json.dumps, unsigned(latent_plain(r[ref])))):
                     fails.append(("latent", "values", "%s differs from the minimised latent samples" % route))
     elif not r.get("latent_error"):
         fails.append(("latent", "missing", "no latent samples"))
